@@ -1410,20 +1410,33 @@ class Container:
             if not solute.is_enzyme():
                 raise TypeError("Solute must be an enzyme.")
 
-        current_ratio = self.contents[solute] / sum(self.contents[substance] for
-                                                    substance in self.contents if not substance.is_enzyme())
-
         if new_ratio <= 0:
             raise ValueError("Solution is impossible to create.")
 
-        if abs(new_ratio - current_ratio) <= 1e-6:
+        def measure(substance: Substance, value: float, unit: str) -> float:
+            """ Converts a stored amount of substance to unit. """
+            return Unit.convert_from(substance, value,
+                                     'U' if substance.is_enzyme() else config.moles_storage_unit, unit)
+
+        # concentration = (quantity of solute in numerator unit) / (quantity of everything in denominator unit)
+        new_concentration, numerator, denominator = Unit.parse_concentration(concentration)
+        top = measure(solute, self.contents[solute], numerator)
+        bottom = sum(measure(substance, value, denominator) for substance, value in self.contents.items())
+        current_concentration = top / bottom
+
+        if abs(new_concentration - current_concentration) <= 1e-6 * current_concentration:
             return deepcopy(self)
 
-        if new_ratio > current_ratio:
+        if new_concentration > current_concentration:
             raise ValueError("Desired concentration is higher than current concentration.")
 
-        current_umoles = Unit.convert_from_storage(self.contents.get(solvent, 0), 'umol')
-        required_umoles = Unit.convert_from_storage(self.contents[solute], 'umol') / new_ratio - current_umoles
+        # new_concentration = (top + x * solvent_top) / (bottom + x * solvent_bottom), x in storage units of solvent
+        solvent_top = measure(solvent, 1., numerator) if solvent == solute else 0.
+        solvent_bottom = measure(solvent, 1., denominator)
+        if solvent.is_enzyme() or new_concentration * solvent_bottom - solvent_top <= 0:
+            raise ValueError("Solution is impossible to create.")
+        required_umoles = (top - new_concentration * bottom) / (new_concentration * solvent_bottom - solvent_top)
+        required_umoles = Unit.convert_from_storage(required_umoles, 'umol')
         new_volume = self.volume + Unit.convert(solvent, f"{required_umoles} umol", config.volume_storage_unit)
 
         if new_volume > self.max_volume:
